@@ -8,8 +8,38 @@ import (
 
 	"verif/harness/hv"
 
+	"github.com/baidu/go-lib/web-monitor/metrics"
 	h2 "github.com/bfenetworks/bfe/bfe_http2"
+	"github.com/bfenetworks/bfe/bfe_http2/hpack"
 )
+
+var h2metrics metrics.Metrics
+
+func setup(string) { h2metrics.Init(h2.GetHttp2State(), "h2", 0) }
+
+// metaResults reads the same wire in the mode the server uses (ReadMetaHeaders set): header blocks are merged.
+func metaResults(bs []byte, maxRead uint32) hv.L {
+	fr := h2.NewFramer(nil, bytes.NewReader(bs))
+	fr.SetMaxReadFrameSize(maxRead)
+	fr.ReadMetaHeaders = hpack.NewDecoder(4096, nil)
+	out := hv.L{}
+	for n := 0; n <= len(bs); n++ {
+		f, err := fr.ReadFrame()
+		if mh, ok := f.(*h2.MetaHeadersFrame); ok && err == nil {
+			out = append(out, hv.L{hv.I(7), hv.I(int(mh.StreamID)), hv.I(len(mh.Fields)), hv.Bool(mh.Truncated)})
+			continue
+		}
+		r, stop := result(f, err)
+		if l, ok := r.(hv.L); ok && len(l) > 5 && hv.AsInt(l[0]) == 0 {
+			r = l[:5] // header only
+		}
+		out = append(out, r)
+		if stop {
+			break
+		}
+	}
+	return out
+}
 
 func b(v hv.Val) bool { return hv.AsBool(v) }
 func u32(v hv.Val) uint32 { return uint32(hv.AsInt(v)) }
@@ -143,7 +173,7 @@ func impl(in hv.Val) hv.Val {
 			break
 		}
 	}
-	return hv.L{hv.B(bs), errs, results}
+	return hv.L{hv.B(bs), errs, results, metaResults(bs, maxRead)}
 }
 
 // ---------------- generator ----------------
@@ -183,6 +213,25 @@ func u32v(r *hv.Rng) int {
 }
 func blob(r *hv.Rng, max int) hv.Val { return hv.B(r.Bytes(r.Intn(max + 1))) }
 
+// a header block fragment: half of the time a sequence of valid HPACK static-table references (pseudo and regular
+// fields in any order, request and response pseudo-headers mixed), so that the ReadMetaHeaders pass gets past hpack
+func frag(r *hv.Rng, min int) []byte {
+	if r.Bool() {
+		n := min + r.Intn(12)
+		return r.Bytes(n)
+	}
+	pieces := []byte{0x82, 0x86, 0x84, 0x81, 0x90, 0x88, 0x82, 0x84, 0x86, 0x93}
+	n := 1 + r.Intn(5)
+	out := make([]byte, n)
+	for i := range out {
+		out[i] = pieces[r.Intn(len(pieces))]
+	}
+	if r.Chance(1, 2) { // canonical request
+		out = []byte{0x82, 0x86, 0x84, 0x81}[:1+r.Intn(4)]
+	}
+	return out
+}
+
 var goodSettings = [][2]int{{1, 4096}, {1, 0}, {2, 0}, {2, 1}, {3, 100}, {4, 0}, {4, 65535}, {4, 1<<31 - 1}, {5, 16384}, {5, maxFrame},
 	{6, 1 << 20}, {7, 12345}, {0xffff, 1<<32 - 1}}
 var badSettings = [][2]int{{2, 2}, {4, 1 << 31}, {4, 1<<32 - 1}, {5, 16383}, {5, 1 << 24}, {5, 0}}
@@ -195,7 +244,7 @@ func legal(r *hv.Rng, hs *int) hv.Val {
 		if eh {
 			*hs = 0
 		}
-		return hv.L{hv.I(9), hv.I(s), hv.Bool(eh), blob(r, 12)}
+		return hv.L{hv.I(9), hv.I(s), hv.Bool(eh), hv.B(frag(r, 0))}
 	}
 	switch r.Intn(11) {
 	case 0:
@@ -222,7 +271,11 @@ func legal(r *hv.Rng, hs *int) hv.Val {
 		if n == 0 {
 			eh = true
 		}
-		return hv.L{hv.I(1), hv.I(s), hv.B(r.Bytes(n)), hv.Bool(r.Bool()), hv.Bool(eh), hv.I([]int{0, 0, 1, 7, 255}[r.Intn(5)]), hv.I(dep), hv.Bool(ex), hv.I(w)}
+		fb := frag(r, 1)
+		if n == 0 {
+			fb = nil
+		}
+		return hv.L{hv.I(1), hv.I(s), hv.B(fb), hv.Bool(r.Bool()), hv.Bool(eh), hv.I([]int{0, 0, 1, 7, 255}[r.Intn(5)]), hv.I(dep), hv.Bool(ex), hv.I(w)}
 	case 2:
 		return hv.L{hv.I(2), hv.I(goodSid(r)), hv.I([]int{0, 1, 5, 1<<31 - 1}[r.Intn(4)]), hv.Bool(r.Bool()), hv.I(r.Intn(256))}
 	case 3:
@@ -371,6 +424,22 @@ func rawFrame(r *hv.Rng, viaWriter bool) hv.Val {
 }
 
 func gen(r *hv.Rng, i int, tier string) (string, hv.Val) {
+	if i%100 == 50 { // lengths that need the third length byte (>= 65536), read limits right at the frame length
+		n := 65530 + r.Intn(12)
+		if r.Chance(1, 3) {
+			n = 131070 + r.Intn(4)
+		}
+		data := make([]byte, n)
+		for k := range data {
+			data[k] = byte(k * 7)
+		}
+		var c hv.Val = hv.L{hv.I(0), hv.I(goodSid(r)), hv.Bool(r.Bool()), hv.B(data), hv.Bool(false), hv.B{}}
+		if r.Chance(1, 3) {
+			c = hv.L{hv.I(10), hv.I(r.Intn(11)), hv.I(r.Intn(2)), hv.I(goodSid(r)), hv.B(data)}
+		}
+		mr := []int{maxFrame, n, n - 1, n + 1, 65535, 65536}[r.Intn(6)]
+		return "big", hv.L{hv.I(mr), hv.L{c, hv.L{hv.I(6), hv.Bool(false), hv.B(r.Bytes(8))}}}
+	}
 	cmds := hv.L{}
 	maxRead := maxFrame
 	mode := r.Intn(10)
@@ -418,5 +487,5 @@ func gen(r *hv.Rng, i int, tier string) (string, hv.Val) {
 }
 
 func main() {
-	hv.Main(&hv.Spec{Prop: "C32", Gen: gen, Impl: impl, NQuick: 6000, NThorough: 300000})
+	hv.Main(&hv.Spec{Prop: "C32", Gen: gen, Impl: impl, Setup: setup, NQuick: 6000, NThorough: 300000})
 }
